@@ -2,21 +2,56 @@ import os, sys
 sys.path.insert(0, os.path.dirname(__file__))
 from _common import *
 UW = {'simd_bitmask': 17, 'swap_nonoverlapping': 8, 'renew_certificate': 5, 'block_on': 3}
+
+import re
+def gen_renew(d, cache, cut):
+    """Source slice: body of renew_certificate (without its final tuple), de-sugared to one task."""
+    p = os.path.join(d, MLF)
+    src = cache[p]
+    real = src.split('#[cfg(kani)]')[0]
+    a, b = 'let backoff = [', '\t(certificate, account_s.clone(), endpoint_s.clone())'
+    if real.count(a) != 1 or real.count(b) != 1:
+        raise cut.EncodeError('slice: anchors of renew_certificate not found exactly once')
+    sl = real[real.index(a):real.index(b)]
+    for pat, rep in [(r'certificate\.schedule_renewal\(\)\s*\.await', 'block_on(certificate.schedule_renewal())'),
+                     (r'certificate\s*\.call_post_operation_hooks\(&status, is_success\)\s*\.await', 'block_on(certificate.call_post_operation_hooks(&status, is_success))')]:
+        sl, k = re.subn(pat, rep, sl)
+        if k != 1:
+            raise cut.EncodeError('slice: %r expected once, got %d' % (pat, k))
+    sl, k = re.subn(r'\s*\.await\b', '', sl)
+    if k != 3:
+        raise cut.EncodeError('slice: expected 3 remaining .await (2 sleeps, 1 request), got %d' % k)
+    cache[p] = src.replace('VERIF_RENEW_SLICE', '\t' + sl)
+
+
+SLICE_UNIT = {
+    'name': 'attempt_slice', 'shims': ['openssl'], 'edits': [SCHED_CUT, POSTOP_CUT, ML_SLEEP_CUT], 'gen': gen_renew,
+    'assumptions': ['source slice: the body of main_event_loop::renew_certificate (all statements before its final tuple) is pasted verbatim from /repo into renew_slice() and de-sugared to one task (`.await` dropped; the two Certificate methods run through the one-poll executor)',
+                    'the account/endpoint handles are an opaque clonable unit type in the slice (the function only clones and forwards them); request_certificate and sleep resolve to local models: the request fails or succeeds on the solver\'s choice, sleep records the requested duration'],
+    'harness_files': {MLF: ['harness/main_event_loop.rs', 'harness/main_event_loop_slice.rs']},
+    'harnesses': [
+        {'name': 'c07_slice_witness', 'file': MLF, 'kind': 'witness', 'timeout': 1200, 'unwindset': dict(UW, renew_slice=5, memcmp=9), 'bounds': 'one attempt, <= 2 scheduling errors', 'asserts': 'success, reported failure and scheduling retries reachable'},
+        {'name': 'c07_slice_attempt_reports_once', 'file': MLF, 'timeout': 1500, 'unwindset': dict(UW, renew_slice=5, memcmp=9),
+         'bounds': 'one attempt; scheduling answers: <= 2 errors then any u32 seconds; request and post-operation hooks each fail or succeed (symbolic)',
+         'asserts': 'one request, post-operation hooks exactly once, is_success == request Ok, status "success" iff Ok, hook failure contained (the function returns), >= 60 s back-off per scheduling error'},
+    ],
+}
 SPEC = {
     'id': 'C07',
     'outside': 'process survival under real panics/aborts; what happens inside request_certificate (cut: it fails or succeeds on the solver\'s choice); hook exit-code plumbing (C10); non-interference between several certificates (needs interleavings: C12); "bounded time" is only "bounded number of environment interactions"',
     'assumptions': ['Certificate::schedule_renewal, acme_proto::request_certificate and Certificate::call_post_operation_hooks cut to contract models (see harness/main_event_loop.rs)',
                     'tokio::time::sleep replaced by a recording model; openssl model for the account key; RandomState/fmt::format stubbed'],
     'units': [
+        SLICE_UNIT,
         {
             'name': 'attempt', 'shims': ['openssl'], 'edits': [SCHED_CUT, POSTOP_CUT, REQCERT_CUT, ML_SLEEP_CUT],
             'harness_files': {MLF: 'harness/main_event_loop.rs'},
             'harnesses': [
-                {'name': 'c07_witness', 'file': MLF, 'kind': 'witness', 'timeout': 1500, 'unwindset': UW, 'bounds': 'one attempt, <= 2 scheduling errors', 'asserts': 'success, failure and scheduling retries reachable'},
-                {'name': 'c07_attempt_reports_once', 'file': MLF, 'timeout': 1800, 'unwindset': UW,
+                {'name': 'c07_witness', 'file': MLF, 'tiers': ['dbg'], 'kind': 'witness', 'timeout': 1500, 'unwindset': UW, 'bounds': 'one attempt, <= 2 scheduling errors', 'asserts': 'success, failure and scheduling retries reachable'},
+                {'name': 'c07_attempt_reports_once', 'file': MLF, 'tiers': ['dbg'], 'timeout': 1800, 'unwindset': UW,
                  'bounds': 'one attempt; scheduling answers: <= 2 errors then any u32 seconds; request and post-operation hook each fail or succeed (symbolic)',
                  'asserts': 'one request, post-operation hooks exactly once, is_success == request Ok, status "success" iff Ok, hook failure contained, >= 60 s back-off per scheduling error'},
-                {'name': 'c07_no_tight_loop_after_failure', 'file': MLF, 'timeout': 2400, 'unwindset': UW,
+                {'name': 'c07_no_tight_loop_after_failure', 'file': MLF, 'tiers': ['dbg'], 'timeout': 2400, 'unwindset': UW,
                  'bounds': 'two chained attempts, every combination of outcomes and scheduling answers (incl. ZERO)',
                  'asserts': '>= 1 s of sleep requested between a failed request and the next request'},
             ],
